@@ -1,5 +1,6 @@
 import CalVerif.Lemmas.Geometry
 import CalVerif.Lemmas.GeometryXls
+import CalVerif.Lemmas.GeometryTable
 import CalVerif.Props.C05
 /-! # C17 — merged regions and tables are reported with the geometry the file declares
     Property theorems only (helper lemmas live in `Lemmas/Geometry.lean`).
@@ -124,6 +125,46 @@ example : (⟨[83], [112], ['x'], [.text [10]], true,
       · intro a ha; simp at ha; subst ha; decide
       · intro e he; simp at he; subst he; trivial
 
+/-- `Xlsx::worksheet_merge_cells(name)` and `worksheet_merge_cells_at(n)`: the first sheet bearing the name
+    (`n` = its index in the metadata) yields exactly its declared regions; a name no sheet bears yields `None` -/
+theorem worksheet_merge_cells_at_exact (m : Mode) (pre post : List SheetDecl) (s : SheetDecl) (hok : s.Ok)
+    (huniq : ∀ x ∈ pre, x.name ≠ s.name) :
+    worksheetMergeCellsByName m ((pre ++ s :: post).map (·.part)) s.name = some (.ok s.regions) ∧
+    worksheetMergeCellsAt ((pre ++ s :: post).map (·.name))
+      (worksheetMergeCellsByName m ((pre ++ s :: post).map (·.part))) pre.length = some (.ok s.regions) ∧
+    ∀ other, (∀ x ∈ pre ++ s :: post, x.name ≠ other) →
+      worksheetMergeCellsByName m ((pre ++ s :: post).map (·.part)) other = none := by
+  have hby : worksheetMergeCellsByName m ((pre ++ s :: post).map (·.part)) s.name = some (.ok s.regions) := by
+    unfold worksheetMergeCellsByName
+    rw [List.map_append, List.find?_append]
+    have hnone : (pre.map (·.part)).find? (fun p => decide (p.name = s.name)) = none := by
+      rw [List.find?_eq_none]
+      intro p hp
+      obtain ⟨x, hx, rfl⟩ := List.mem_map.mp hp
+      have := huniq x hx
+      intro hd
+      exact this (of_decide_eq_true hd)
+    rw [hnone]
+    simp only [List.map_cons, Option.none_or]
+    rw [List.find?_cons_of_pos (by simp [SheetDecl.part])]
+    simp only [SheetDecl.part, Option.map_some, (merge_regions_exact m s hok).2]
+  refine ⟨hby, ?_, ?_⟩
+  · have := worksheetMergeCellsAt_nth (pre.map (·.name)) (post.map (·.name)) s.name
+      (worksheetMergeCellsByName m ((pre ++ s :: post).map (·.part)))
+    rw [hby, List.length_map] at this
+    rw [List.map_append, List.map_cons]
+    exact this
+  · intro other hother
+    unfold worksheetMergeCellsByName
+    have : ((pre ++ s :: post).map (·.part)).find? (fun p => decide (p.name = other)) = none := by
+      rw [List.find?_eq_none]
+      intro p hp
+      obtain ⟨x, hx, rfl⟩ := List.mem_map.mp hp
+      have := hother x hx
+      intro hd
+      exact this (of_decide_eq_true hd)
+    rw [this]
+
 /-! ## xls merged regions -/
 
 /-- `parse_merge_cells` decodes the payload of a MERGEDCELLS record to exactly the encoded regions (count,
@@ -197,7 +238,8 @@ theorem sheet_mergecells_exact : ∀ (recs : List (Nat × Bytes)) (blocks : List
 example : parseMergeCells (encodeMergedCells [⟨0, 0, 1, 1⟩, ⟨65535, 255, 65535, 255⟩]) =
     .ok [⟨0, 0, 1, 1⟩, ⟨65535, 255, 65535, 255⟩] := by decide
 
-/-- workbook level: `Xls::worksheet_merge_cells(name)` returns the regions of the substream that starts at
+/-- workbook level: `Xls::worksheet_merge_cells(name)` — and `worksheet_merge_cells_at(n)` for the sheet's index `n`
+    in the metadata — returns the regions of the substream that starts at
     the BoundSheet8 offset of the sheet bearing that name — the declared regions of *that* sheet, in record
     order —, for a sheet list `(lbPlyPos, name)` in which no later sheet repeats the name (a `BTreeMap` keeps the
     last). Hypotheses: every substream's loop ends normally (otherwise `Xls::new` fails as a whole), and the
@@ -215,10 +257,15 @@ theorem xls_merge_attribution {κ : Type} [DecidableEq κ] (stream : Bytes) (pre
       blocks.map encodeMergedCells)
     (hfit : ∀ b ∈ blocks, b.length < 8192 ∧ ∀ x ∈ b, x.Fits16) :
     ∃ map, xlsSheetsMerges stream (pre ++ (pos, name) :: post) [] = .ok map ∧
-      xlsWorksheetMergeCells map name = some blocks.flatten := by
+      xlsWorksheetMergeCells map name = some blocks.flatten ∧
+      worksheetMergeCellsAt ((pre ++ (pos, name) :: post).map (·.2)) (xlsWorksheetMergeCells map) pre.length =
+        some blocks.flatten := by
   obtain ⟨map, hmap, hA, _⟩ := xlsSheetsMerges_lookup stream (pre ++ (pos, name) :: post) [] hall
   obtain ⟨ds, hds, hlook⟩ := hA pre pos name post rfl huniq
-  refine ⟨map, hmap, ?_⟩
+  suffices hby : xlsWorksheetMergeCells map name = some blocks.flatten by
+    refine ⟨map, hmap, hby, ?_⟩
+    have := worksheetMergeCellsAt_nth (pre.map (·.2)) (post.map (·.2)) name (xlsWorksheetMergeCells map)
+    simpa [hby] using this
   rw [hlook]
   rw [hitems, sheetMergeItems_records d c tail recs] at hds
   have hne' : ∀ r ∈ recs.map (fun r => (r.typ, r.data)), r.1 ≠ 0x000A := by
@@ -405,6 +452,92 @@ theorem table_metadata_exact (m : Mode) (parts : List (Bytes × List Ev)) :
           .ok (rest.flatMap (·.entries)) := ih
       rw [ih']
       rfl
+
+/-- `table_names_in_sheet(s)`: the names of the tables the sheet `s` declares, in load order — for the list
+    `read_table_metadata` produces (`table_metadata_exact`) and a sheet name no other sheet bears -/
+theorem table_names_in_sheet_exact (pre post : List SheetTablesDecl) (s : SheetTablesDecl)
+    (huniq : ∀ x ∈ pre ++ post, x.name ≠ s.name) :
+    tableNamesInSheet ((pre ++ s :: post).flatMap (·.entries)) s.name = s.tables.map (·.2.name) ∧
+    tableNames ((pre ++ s :: post).flatMap (·.entries)) =
+      (pre ++ s :: post).flatMap (fun x => x.tables.map (·.2.name)) := by
+  constructor
+  · unfold tableNamesInSheet
+    have hnone : ∀ (l : List SheetTablesDecl), (∀ x ∈ l, x.name ≠ s.name) →
+        (l.flatMap (·.entries)).filter (fun t => t.sheet = s.name) = [] := by
+      intro l hl
+      rw [List.filter_eq_nil_iff]
+      intro t ht
+      obtain ⟨x, hx, ht⟩ := List.mem_flatMap.mp ht
+      obtain ⟨p, _, rfl⟩ := List.mem_map.mp ht
+      simpa using hl x hx
+    have hself : s.entries.filter (fun t => t.sheet = s.name) = s.entries := by
+      rw [List.filter_eq_self]
+      intro t ht
+      obtain ⟨p, _, rfl⟩ := List.mem_map.mp ht
+      simp
+    rw [List.flatMap_append, List.flatMap_cons, List.filter_append, List.filter_append,
+      hnone pre (fun x hx => huniq x (List.mem_append_left _ hx)),
+      hnone post (fun x hx => huniq x (List.mem_append_right _ hx)), hself]
+    simp [SheetTablesDecl.entries]
+  · simp only [tableNames, SheetTablesDecl.entries, List.map_flatMap, List.map_map]
+    rfl
+
+/-- `table_by_name` / `table_by_name_ref` and the getters of `Table`: the table found under a name carries the
+    name, sheet name and column names of its entry of the loaded list (the declared ones, `table_metadata_exact`),
+    its `data()` is the data window of that sheet's range (`table_data_spec`), and `Range::from(table)` is that
+    `data` -/
+theorem table_by_name_accessors {α : Type} [Inhabited α] (ts : List TableEntry)
+    (sheetRange : Bytes → Res (Range.Rng α)) (name : Bytes) (t : Table α)
+    (h : tableByName ts sheetRange name = .ok t) :
+    ∃ e r, getTableMeta ts name = .ok e ∧ sheetRange e.sheet = .ok r ∧ tableData r e.dims = .ok t.data ∧
+      t.name = e.name ∧ t.sheetName = e.sheet ∧ t.columns = e.columns ∧ t.toRange = t.data := by
+  unfold tableByName at h
+  cases he : getTableMeta ts name with
+  | ok e =>
+    rw [he] at h
+    cases hr : sheetRange e.sheet with
+    | ok r =>
+      simp only [hr] at h
+      cases hd : tableData r e.dims with
+      | ok d =>
+        simp only [hd] at h
+        injection h with h
+        subst h
+        exact ⟨e, r, rfl, hr, hd, rfl, rfl, rfl, rfl⟩
+      | err x => simp [hd] at h
+      | panic x => simp [hd] at h
+      | outOfFuel => simp [hd] at h
+    | err x => simp [hr] at h
+    | panic x => simp [hr] at h
+    | outOfFuel => simp [hr] at h
+  | err x => simp [he] at h
+  | panic x => simp [he] at h
+  | outOfFuel => simp [he] at h
+
+/-- `table_by_name_ref` vs `table_by_name`: when every sheet's owned range is the cell-wise `Data::from` of its
+    borrowed range (`DataConv.toOwnedRange`, C07 `owned_range_cells`), the owned table is the borrowed table
+    with the same name, sheet and columns and with `data` converted cell by cell — same outcome class, same
+    corners, every cell `toData` of the borrowed cell -/
+theorem table_by_name_ref_agrees (ts : List TableEntry) (refRange : Bytes → Res (Range.Rng DataConv.DataRef))
+    (name : Bytes) :
+    tableByName ts (fun s => mapRes DataConv.toOwnedRange (refRange s)) name =
+      mapRes (fun t => ⟨t.name, t.sheetName, t.columns, DataConv.toOwnedRange t.data⟩)
+        (tableByName ts refRange name) := by
+  unfold tableByName
+  cases getTableMeta ts name with
+  | ok e =>
+    simp only
+    cases refRange e.sheet with
+    | ok r =>
+      simp only [mapRes]
+      rw [toOwnedRange_eq, tableData_map DataConv.toData rfl r e.dims]
+      cases tableData r e.dims <;> rfl
+    | err x => rfl
+    | panic x => rfl
+    | outOfFuel => rfl
+  | err x => rfl
+  | panic x => rfl
+  | outOfFuel => rfl
 
 /-- a sheet `x/w/s` whose relationship part lists a hyperlink and a table relationship `../t`, with the
     archive holding both parts: the hypotheses of `table_metadata_exact` are satisfiable -/
